@@ -618,7 +618,20 @@ class JSTypedArray(JSObject):
 
     def _coerce_value(self, value):
         """Coerce value to the appropriate type. Override in subclasses."""
-        return int(value) if isinstance(value, (int, float)) else 0
+        return self._to_wrapped_int(value)
+
+    def _to_wrapped_int(self, value) -> int:
+        """ToNumber, then the conversion of the integer element types: NaN and
+        the infinities give 0, any other number is truncated and wrapped to the
+        width (and signedness) of the element."""
+        n = to_number(value)
+        if n != n or n in (math.inf, -math.inf):
+            return 0
+        bits = self._element_size * 8
+        v = int(n) & ((1 << bits) - 1)
+        if self._signed and v >= 1 << (bits - 1):
+            v -= 1 << bits
+        return v
 
     def __repr__(self) -> str:
         return f"{self._type_name}({self._data})"
@@ -633,14 +646,7 @@ class JSInt32Array(JSTypedArray):
 
     def _coerce_value(self, value):
         """Coerce to signed 32-bit integer."""
-        if isinstance(value, (int, float)):
-            v = int(value)
-            # Handle overflow to signed 32-bit
-            v = v & 0xFFFFFFFF
-            if v >= 0x80000000:
-                v -= 0x100000000
-            return v
-        return 0
+        return self._to_wrapped_int(value)
 
 
 class JSUint32Array(JSTypedArray):
@@ -652,9 +658,7 @@ class JSUint32Array(JSTypedArray):
 
     def _coerce_value(self, value):
         """Coerce to unsigned 32-bit integer."""
-        if isinstance(value, (int, float)):
-            return int(value) & 0xFFFFFFFF
-        return 0
+        return self._to_wrapped_int(value)
 
 
 class JSFloat64Array(JSTypedArray):
@@ -666,9 +670,7 @@ class JSFloat64Array(JSTypedArray):
 
     def _coerce_value(self, value):
         """Coerce to float."""
-        if isinstance(value, (int, float)):
-            return float(value)
-        return 0.0
+        return float(to_number(value))
 
     def _unpack_value(self, data: bytes):
         """Unpack bytes to float64."""
@@ -692,9 +694,7 @@ class JSUint8Array(JSTypedArray):
 
     def _coerce_value(self, value):
         """Coerce to unsigned 8-bit integer."""
-        if isinstance(value, (int, float)):
-            return int(value) & 0xFF
-        return 0
+        return self._to_wrapped_int(value)
 
 
 class JSInt8Array(JSTypedArray):
@@ -706,12 +706,7 @@ class JSInt8Array(JSTypedArray):
 
     def _coerce_value(self, value):
         """Coerce to signed 8-bit integer."""
-        if isinstance(value, (int, float)):
-            v = int(value) & 0xFF
-            if v >= 0x80:
-                v -= 0x100
-            return v
-        return 0
+        return self._to_wrapped_int(value)
 
 
 class JSInt16Array(JSTypedArray):
@@ -723,12 +718,7 @@ class JSInt16Array(JSTypedArray):
 
     def _coerce_value(self, value):
         """Coerce to signed 16-bit integer."""
-        if isinstance(value, (int, float)):
-            v = int(value) & 0xFFFF
-            if v >= 0x8000:
-                v -= 0x10000
-            return v
-        return 0
+        return self._to_wrapped_int(value)
 
 
 class JSUint16Array(JSTypedArray):
@@ -740,9 +730,7 @@ class JSUint16Array(JSTypedArray):
 
     def _coerce_value(self, value):
         """Coerce to unsigned 16-bit integer."""
-        if isinstance(value, (int, float)):
-            return int(value) & 0xFFFF
-        return 0
+        return self._to_wrapped_int(value)
 
 
 class JSUint8ClampedArray(JSTypedArray):
@@ -753,16 +741,13 @@ class JSUint8ClampedArray(JSTypedArray):
 
     def _coerce_value(self, value):
         """Coerce to clamped unsigned 8-bit integer (0-255)."""
-        if isinstance(value, (int, float)):
-            # Round half to even for 0.5 values
-            v = round(value)
-            # Clamp to 0-255
-            if v < 0:
-                return 0
-            if v > 255:
-                return 255
-            return v
-        return 0
+        n = to_number(value)
+        if n != n or n <= 0:
+            return 0
+        if n >= 255:
+            return 255
+        # Round half to even for 0.5 values
+        return round(n)
 
 
 class JSFloat32Array(JSTypedArray):
@@ -776,11 +761,8 @@ class JSFloat32Array(JSTypedArray):
         """Coerce to 32-bit float."""
         import struct
 
-        if isinstance(value, (int, float)):
-            # Convert to float32 and back to simulate precision loss
-            packed = struct.pack("<f", float(value))
-            return struct.unpack("<f", packed)[0]
-        return 0.0
+        # Convert to float32 and back to simulate precision loss
+        return struct.unpack("<f", self._pack_value(to_number(value)))[0]
 
     def _unpack_value(self, data: bytes):
         """Unpack bytes to float32."""
@@ -792,7 +774,11 @@ class JSFloat32Array(JSTypedArray):
         """Pack float32 to bytes."""
         import struct
 
-        return struct.pack("<f", float(value))
+        try:
+            return struct.pack("<f", float(value))
+        except OverflowError:
+            # Beyond the float32 range: the nearest float32 is an infinity
+            return struct.pack("<f", math.copysign(math.inf, value))
 
 
 class JSArrayBuffer(JSObject):
